@@ -56,8 +56,28 @@ def ctor_post(s, lw):
     lw.fire('subst:inst_ref', n)
     return s
 
-RI = dict(members=['_counter'])
+# read_indicator's representation: every `std::atomic<uint64_t> NAME{init};` member of the struct, read from the header on every run.
+# The harness builds struct read_indicator, its initialiser, havoc, equality and the monitors' address test from this list (-DXV_RI_FIELDS=...).
+def ri_fields():
+    import os
+    from xvlib import lower as L
+    from xvlib.engine import XvError, REPO
+    path = os.path.join(REPO, F)
+    if not os.path.exists(path): raise XvError('extraction broke: missing file ' + F)
+    src = L.strip_comments(L.read_source(path))
+    m = re.search(r'struct\s+(?:alignas\s*\(\s*\d+\s*\)\s*)?read_indicator\s*\{', src)
+    if not m: raise XvError('extraction broke: struct read_indicator not found')
+    body = src[m.end() - 1:L.match_brace(src, m.end() - 1)]
+    fs = re.findall(r'std::atomic<\s*(?:std::)?uint64_t\s*>\s+(\w+)\s*\{([^}]*)\}\s*;', body)
+    if not fs: raise XvError('extraction broke: read_indicator has no std::atomic<uint64_t> NAME{init}; member')
+    if re.search(r'std::atomic<(?!\s*(?:std::)?uint64_t\s*>)', body): raise XvError('extraction broke: read_indicator has an atomic member of another type')
+    return fs
+RI_FIELDS = ri_fields()
+RI_DEFS = {'XV_RI_FIELDS': ' '.join('XV_RI_FIELD(%s,%s)' % (n, (i.strip() or '0')) for n, i in RI_FIELDS)}
+RI = dict(members=[n for n, i in RI_FIELDS])
 LR_MEMBERS = ['_writer_mutex', '_version_index', '_lr_indicator', '_read_indicator1', '_read_indicator2', '_left', '_right']
+
+ENV3 = 'environment = the reader quantifier of the property: one tracked reader following the contract of lr.read.bracket (exclusion is asserted for it) and two more that arrive/depart on either indicator, all by executing the real arrive()/depart(); between two accesses of the writer the tracked one takes up to 6 steps and the others up to 3 each, interleaved (complete in terms of reader states and occupancy, run env_closed); the second writer is excluded by the mutex'
 
 UNIT = dict(
   title='left_right: read / update / toggle_version_and_wait / wait_for_readers / read_indicator / read_guard / constructors (C13)',
@@ -69,10 +89,9 @@ UNIT = dict(
         'declaration -> ctor call, every exit (return, exceptional, end) -> dtor call; default member initialisers are extracted as constants and applied by the ctor harness',
   assumptions=[
     'composition (Left-Right proof, Ramalhete & Correia 2015) from the per-operation obligations to linearizability of reads is argued, not machine-checked; '
-    'the exclusion half of it IS checked (lr.update.exclusion) for one arbitrary tracked reader that follows the contract proved by lr.read.bracket, among arbitrarily many other readers',
+    'the exclusion half of it IS checked (lr.update.exclusion) for one arbitrary tracked reader that follows the contract proved by lr.read.bracket, together with two further readers (3 readers in all, the quantifier of the property)',
     'std::lock_guard<std::mutex>: constructor locks, destructor unlocks (stub xv_lock_guard_*); std::mutex gives mutual exclusion between writers (so the environment of update never writes _lr_indicator/_version_index/instances)',
     'sequentially consistent model of the atomics (model/xv.h); the orders are checked as data by lr.sync.seq_cst',
-    'fewer than 2^62 readers are inside read() at any time (counter does not wrap)',
   ],
   consts=[
     dict(name='READ_LEFT', file=F, regex=r'static constexpr int READ_LEFT = ([^;]+);'),
@@ -83,15 +102,14 @@ UNIT = dict(
     # `decltype(auto)` would let a reference into the instance escape the guarded region
     dict(name='XV_READ_RETURNS_BY_VALUE', file=F, regex=r'\n\s*((?:decltype\s*\(\s*auto\s*\)|auto|const auto&|auto&&|auto&))\s+read\(Func&& func\) const',
          subst=[(r'^auto$', '1'), (r'^(decltype.*|const auto&|auto&&|auto&)$', '0')]),
-    dict(name='XV_NSDMI_counter', file=F, regex=r'std::atomic<uint64_t> _counter\{([^}]*)\};'),
   ],
   sources=[
     dict(RI, id='arrive', file=F, sig=r'void arrive\(\)', c_sig='static void ri_arrive(struct read_indicator* self)',
-         must_fire={'A_FADD': 1, 'member:_counter': 1}),
+         must_fire={'A_FADD': 1}),
     dict(RI, id='depart', file=F, sig=r'void depart\(\)', c_sig='static void ri_depart(struct read_indicator* self)',
-         must_fire={'A_FSUB': 1, 'member:_counter': 1}),
+         must_fire={'A_FSUB': 1}),
     dict(RI, id='empty', file=F, sig=r'bool empty\(\)', c_sig='static _Bool ri_empty(struct read_indicator* self)',
-         must_fire={'A_LOAD': 1, 'member:_counter': 1}),
+         must_fire={'A_LOAD': 1}),
     dict(id='get_read_indicator', file=F, sig=r'read_indicator& get_read_indicator\(int idx\) const',
          c_sig='static struct read_indicator* lr_get_read_indicator(struct left_right* self, int idx)',
          members=LR_MEMBERS,
@@ -140,22 +158,23 @@ UNIT = dict(
          c_sig='static void lr_ctor2(struct left_right* self, struct T left, struct T right)', must_fire={'ctor_init': 2}),
   ],
   runs=[
-    dict(id='indicator', entry='h_indicator', cls='unbounded'),
-    dict(id='guard', entry='h_guard', cls='unbounded'),
-    dict(id='ctor', entry='h_ctor', cls='unbounded'),
-    dict(id='wait', entry='h_wait', cls='unbounded', note='SEQ: returns only from states whose counter is 0'),
-    dict(id='wait_int', entry='h_wait', mode='INT', cls='unbounded', note='spin loop cut (invariant true; the environment is closed under repetition, run env_closed)'),
-    dict(id='toggle', entry='h_toggle', cls='unbounded'),
-    dict(id='toggle_int', entry='h_toggle', mode='INT', cls='unbounded'),
-    dict(id='update', entry='h_update', cls='unbounded'),
-    dict(id='update_int', entry='h_update', mode='INT', cls='unbounded',
-         note='one arbitrary tracked reader following the contract of lr.read.bracket + arbitrarily many other readers; the second writer is excluded by the mutex'),
-    dict(id='update2_int', entry='h_update2', mode='INT', cls='unbounded', note='two back-to-back updates with the tracked reader running throughout'),
-    dict(id='read', entry='h_read_seq', cls='unbounded'),
-    dict(id='read_int', entry='h_read', mode='INT', cls='unbounded', note='environment: writers and other readers rewrite every shared word at every step'),
-    dict(id='read_solo', entry='h_read', mode='SOLO', unwind=1, unwind_obligation='lr.read.wait_free', cls='unbounded',
+    dict(id='indicator', entry='h_indicator', defs=RI_DEFS, cls='unbounded', note='single operations from arbitrary member values; the occupancy sequence check uses 4 operations from a quiescent state'),
+    dict(id='empty', entry='h_empty', defs=RI_DEFS, cls='shape-complete', note='0..3 readers inside, no interference'),
+    dict(id='empty_int', entry='h_empty', mode='INT', defs=RI_DEFS, cls='shape-complete', note=ENV3),
+    dict(id='guard', entry='h_guard', defs=RI_DEFS, cls='unbounded'),
+    dict(id='ctor', entry='h_ctor', defs=RI_DEFS, cls='unbounded'),
+    dict(id='wait', entry='h_wait', defs=RI_DEFS, cls='shape-complete', note='SEQ: returns only from states in which nobody is on that indicator'),
+    dict(id='wait_int', entry='h_wait', mode='INT', defs=RI_DEFS, cls='shape-complete', note='spin loop cut (invariant true); ' + ENV3),
+    dict(id='toggle', entry='h_toggle', defs=RI_DEFS, cls='shape-complete'),
+    dict(id='toggle_int', entry='h_toggle', mode='INT', defs=RI_DEFS, cls='shape-complete', note=ENV3),
+    dict(id='update', entry='h_update', defs=RI_DEFS, cls='shape-complete'),
+    dict(id='update_int', entry='h_update', mode='INT', defs=RI_DEFS, cls='shape-complete', note=ENV3),
+    dict(id='update2_int', entry='h_update2', mode='INT', defs=RI_DEFS, cls='shape-complete', note='two back-to-back updates with the readers running throughout; ' + ENV3),
+    dict(id='read', entry='h_read_seq', defs=RI_DEFS, cls='shape-complete', note='0..3 other readers inside'),
+    dict(id='read_int', entry='h_read', mode='INT', defs=RI_DEFS, cls='unbounded', note='environment: writers and other readers rewrite every shared word (all indicator members included) at every step'),
+    dict(id='read_solo', entry='h_read', mode='SOLO', defs=RI_DEFS, unwind=1, unwind_obligation='lr.read.wait_free', cls='unbounded',
          note='read() and everything it calls contain no loop: unwinding bound 1 with unwinding assertions'),
-    dict(id='env_closed', entry='h_env_closed', cls='unbounded', note='model self-check for the INT environment'),
+    dict(id='env_closed', entry='h_env_closed', defs=RI_DEFS, cls='unbounded', note='model self-check for the INT environment'),
   ],
   obligations={
     'lr.update.order': dict(deciding=True, text='update applies the functor exactly twice: first to the instance _lr_indicator did not select at entry, then stores the indicator selecting that instance, then toggle_version_and_wait runs and returns, then the functor is applied to the other instance; each instance receives the update exactly once (and consecutive updates in the same order); _lr_indicator == _version_index again on exit'),
@@ -165,7 +184,8 @@ UNIT = dict(
     'lr.toggle.drains': dict(deciding=True, text='[INT] when toggle_version_and_wait returns, a reader that is inside its functor loaded _lr_indicator after the call started'),
     'lr.wait.spins_until_empty': dict(deciding=True, text='wait_for_readers(idx) returns only after empty() of indicator idx returned true; it reads no other counter and writes nothing'),
     'lr.read.bracket': dict(deciding=True, text='read: version load, then arrive on the indicator that version selects, then load of _lr_indicator, then the functor on the instance that load selected, then depart on the same indicator - on every exit including a throwing functor; returns the functor result; writes nothing else'),
-    'lr.indicator.counts': dict(deciding=True, text='arrive/depart are +1/-1 on the indicator\'s own counter, empty() is counter == 0, get_read_indicator(i) is indicator i'),
+    'lr.indicator.counts': dict(deciding=True, text='representation-independent: arrive() and depart() each perform exactly one RMW by one on a member of their own indicator and nothing else; with the abstract occupancy = arrivals - departures, empty() (no interference) is true iff the occupancy is 0, from any quiescent state and after any sequence of arrive/depart; the other indicator is never touched; get_read_indicator(i) is indicator i'),
+    'lr.indicator.empty_linearizable': dict(deciding=True, text='[INT] with other readers arriving and departing (by the real arrive()/depart()) between empty()\'s atomic accesses, empty() returns true only if the occupancy of that indicator was 0 at some instant between call and return - never while a reader that arrived before the call stays inside'),
     'lr.sync.seq_cst': dict(deciding=True, text='sync: the sites named by the numbered comments are at least as strong as stated: (1) indicator load seq_cst, (2)(3) indicator store seq_cst, (4) arrive seq_cst RMW, (5) depart release-or-stronger RMW, (6) empty() load seq_cst.  The _version_index load/store are relaxed in the code and named by no numbered comment; they are recorded but not constrained: exclusion does not depend on which indicator a reader picks, because the writer waits for both indicators after the seq_cst indicator store (lr.update.exclusion is proved with an arbitrarily stale version in the reader)'),
     'lr.read.wait_free': dict(deciding=True, text='[SOLO] read has no loop: it finishes in exactly five steps under any interference'),
     'lr.ctor.init': dict(deciding=True, text='the constructors establish the idle invariant: indicator == version index, both counters 0, mutex free, both instances initialised from the source(s)'),
@@ -173,5 +193,5 @@ UNIT = dict(
   loop_obligation={'WAIT': 'lr.wait.spins_until_empty'},
   replays={'lr.update.order': dict(src='replay_update.cpp'), 'lr.update.mutex': dict(src='replay_update.cpp'), 'lr.toggle.order': dict(src='replay_update.cpp'),
            'lr.read.bracket': dict(src='replay_read.cpp'), 'lr.indicator.counts': dict(src='replay_read.cpp')},
-  canaries=['ctor.one', 'ctor.two', 'env_closed.reached', 'guard.v0', 'guard.v1', 'indicator.arrive', 'indicator.depart', 'indicator.empty', 'indicator.get', 'indicator.nonempty', 'indicator.pair', 'read.functor_threw', 'read.left', 'read.returned', 'read.right', 'read.v0', 'read.v1', 'read_int.indicator_moved', 'read_int.version_moved', 'read_seq.returned', 'read_seq.threw', 'toggle.v0', 'toggle.v1', 'toggle_int.arrived_on_new_version', 'toggle_int.new_reader_inside', 'update.left_first', 'update.right_first', 'update.throw_first', 'update.throw_second', 'update2.done', 'update2_int.reader_cycled_twice', 'update2_int.reader_inside_at_end', 'update_int.arrived_between_switch_and_toggle_old_version', 'update_int.arrived_between_switch_and_toggle_stale_version', 'update_int.reader_on_new_instance_during_second_application', 'update_int.reader_on_old_instance_during_first_application', 'wait.idx0', 'wait.idx1', 'wait.returned', 'wait_int.reader_cycled', 'wait_int.reader_on_other_indicator'],
+  canaries=['ctor.one', 'ctor.two', 'empty.false', 'empty.true', 'empty_int.false_because_someone_came', 'empty_int.old_reader_stays_others_cycle', 'empty_int.true_after_the_last_one_left', 'env_closed.reached', 'guard.v0', 'guard.v1', 'indicator.arrive', 'indicator.depart', 'indicator.empty', 'indicator.get', 'indicator.nonempty', 'indicator.sequence_back_to_empty', 'indicator.sequence_four_inside', 'read.functor_threw', 'read.left', 'read.returned', 'read.right', 'read.v0', 'read.v1', 'read_int.indicator_moved', 'read_int.version_moved', 'read_seq.alone', 'read_seq.returned', 'read_seq.three_others_inside', 'read_seq.threw', 'toggle.v0', 'toggle.v1', 'toggle_int.arrived_on_new_version', 'toggle_int.new_reader_inside', 'update.left_first', 'update.right_first', 'update.throw_first', 'update.throw_second', 'update2.done', 'update2_int.reader_cycled_twice', 'update2_int.reader_inside_at_end', 'update_int.arrived_between_switch_and_toggle_old_version', 'update_int.arrived_between_switch_and_toggle_stale_version', 'update_int.reader_on_new_instance_during_second_application', 'update_int.reader_on_old_instance_during_first_application', 'wait.idx0', 'wait.idx1', 'wait.returned', 'wait_int.other_readers_moved', 'wait_int.reader_cycled', 'wait_int.reader_on_other_indicator'],
 )
